@@ -564,6 +564,17 @@ def inv7(rep, rule='INV-7'):
                             and _nt(e.r.func) == '%s.changed' % X]
                     if muts and not told and ps.kind != 'raise':
                         conds = [c for c, t, p in ps.order if p >= rm[0]]
+                        # a condition over storage that the path itself updated
+                        # item by item (counters kept in a container that is
+                        # not a plain local) is not evaluated by the engine:
+                        # the path may be infeasible, so it proves nothing
+                        upd = {_nt(e.r) for e in ps.events if e.kind in ('aug', 'store')
+                               and isinstance(e.r, (ast.Subscript, ast.Attribute))}
+                        if any(u in c for u in upd for c in conds):
+                            rep.note('%s: %s.%s has a path whose notification guard '
+                                     'reads item-wise updated storage (%s); not decided'
+                                     % (rule, cls.name, name, sorted(upd)[:2]))
+                            continue
                         probs.append('%s.%s(...) ran with the notification '
                                      'suppressed and %s.changed(%s) is not called '
                                      'afterwards (path conditions after the '
